@@ -66,7 +66,13 @@ def eval(
 
 def load(path: Union[str, DDSPath, pathlib.Path]) -> Any:
     path_ = DDSPathUtils.create(path)
-    key = _store().fetch_paths([path_]).get(path_)
+    key: Optional[PyHash]
+    if _eval_ctx is not None and path_ in _eval_ctx.requested_paths:
+        # This path is produced by the current evaluation. The paths are only committed at the end of an
+        # evaluation: the store would still serve the previous content (or nothing at all).
+        key = _eval_ctx.requested_paths[path_]
+    else:
+        key = _store().fetch_paths([path_]).get(path_)
     if key is None:
         raise DDSException(f"The store {_store()} did not return path {path_}")
     else:
